@@ -438,7 +438,13 @@ func (r *alRunner) run(ops []alOp) (v *alViolation) {
 		case opPush:
 			r.tcpBuf = r.tcpBuf[:0]
 			for _, a := range o.addrs {
-				r.tcpBuf = append(r.tcpBuf, c.uni[a].tcp)
+				t := c.uni[a].tcp
+				if peersource.Source(o.src) == peersource.DHT || peersource.Source(o.src) == peersource.Manual {
+					// the same endpoint in the other encoding: compact peer lists (DHT) carry 4-byte IPv4 addresses,
+					// ParseIP-built ones (trackers, PEX) 16-byte ones; the set must not tell them apart
+					t = &net.TCPAddr{IP: t.IP.To4(), Port: t.Port}
+				}
+				r.tcpBuf = append(r.tcpBuf, t)
 			}
 			for !time.Now().After(r.after) { // the next Push sees a strictly later clock
 			}
